@@ -240,6 +240,11 @@ pub fn run(env: &Env) -> PropRun {
         };
         parts.push(run_part(env, "enum-pairs-3x3", ptotal, true, "3x3: every margin pair x origin on/off x every start cell incl. wrap-pending x all ordered pairs of 66 commands (12 parameterised moves x {omitted,2,edge,65535}, C0/ESC moves, ?6h/l, CUP forms, DECSTBM, DECSC/DECRC, a print)", &pmake, &j));
     }
+    {
+        use gen::*;
+        let gl = |src: &mut Src, _i: usize| large_case(src, true, &[(CAT_CUP, 6), (CAT_REL, 10), (CAT_C0, 3), (CAT_ESCFE, 3), (CAT_TABMOVE, 4), (CAT_STBM, 2), (CAT_DECMODE, 2), (CAT_FILL, 1), (CAT_SAVE, 1)], 16);
+        parts.push(random_part(env, "large-screens", env.tier.scale(800, 40), &gl, &j));
+    }
     let n = env.tier.scale(60_000, 40);
     parts.push(random_part(env, "random-histories", n, &gen_random, &j));
     PropRun {
